@@ -13,6 +13,15 @@ def decks() -> list[str]:
     return out
 
 
+KEY = ("prs-slide-masters.pptx", "sld-notes.pptx", "cht-plot-props.pptx", "shp-groupshape.pptx", "tbl-cell.pptx", "ph-inherit-props.pptx",
+       "act-props.pptm", "shp-picture.pptx", "no-core-props.pptx")
+
+
+def key_decks() -> list[str]:
+    """Structurally special decks (several masters, notes, multi-plot charts, groups, tables, macros, no core props)."""
+    return [p for p in decks() if os.path.basename(p) in KEY]
+
+
 def subset(n: int, seed: int = 0) -> list[str]:
     d = decks()
     if n >= len(d):
